@@ -721,8 +721,10 @@ package engine
 //@   modifies nothing
 
 //@ func (*altIterator).Next
+//@   property C03 C10
 //@   trusted
 //@   modifies *i
+//@   resolves-before-inspecting
 //@ func (*altIterator).Current
 //@   trusted
 //@   modifies nothing
@@ -1507,3 +1509,35 @@ package engine
 //@   ensures[earlier-offsets-stay-valid] len(c.vars) >= old(len(c.vars)) && forall j int :: 0 <= j && j < old(len(c.vars)) ==> c.vars[j] == old(c.vars[j])
 //@   ensures[a-known-variable-gets-no-second-slot] (exists j int :: 0 <= j && j < old(len(c.vars)) && old(c.vars[j]) == o) ==> len(c.vars) == old(len(c.vars))
 //@   ensures[a-new-variable-gets-the-next-slot] (forall j int :: 0 <= j && j < old(len(c.vars)) ==> old(c.vars[j]) != o) ==> len(c.vars) == old(len(c.vars)) + 1 && result == old(len(c.vars))
+
+//@ ---------------------------------------------------------------- terms are inspected after following the bindings in force (C03, C10, C11)
+//@ func (*seqIterator).Next
+//@   property C03 C10
+//@   trusted
+//@   modifies *i
+//@   resolves-before-inspecting
+//@ func (*anyIterator).Next
+//@   property C03
+//@   trusted
+//@   modifies *i
+//@   resolves-before-inspecting
+//@ func newExistentialVariablesSet
+//@   property C11
+//@   trusted
+//@   resolves-before-inspecting
+//@ func iteratedGoalTerm
+//@   property C11
+//@   trusted
+//@   resolves-before-inspecting
+//@ func newVariableSet
+//@   property C11
+//@   trusted
+//@   resolves-before-inspecting
+//@ func newFreeVariablesSet
+//@   property C11
+//@   trusted
+//@   resolves-before-inspecting
+//@ func variant
+//@   property C11
+//@   trusted
+//@   resolves-before-inspecting
